@@ -59,7 +59,8 @@ def exec_grammar(engine_extras: bool = False, opt_extras: bool = False) -> Gramm
         A("on.eq_const", 1, "x.b = y.b AND y.c = 1"), A("on.true", 1, "1 = 1"), A("on.neq", 1, "x.b <> y.b"),
         A("on.two_keys", 1, "x.b = y.b AND x.a = y.c"), A("on.or", 1, "x.b = y.b OR x.a = y.c"), A("on.cond", 1, "{jc}"),
     ]
-    jk = [A("join.inner", 0, "JOIN"), A("join.left", 1, "LEFT JOIN"), A("join.right", 1, "RIGHT JOIN"), A("join.full", 1, "FULL JOIN")]
+    # the join kind is a free (weight 0) menu: every join kind meets every ON shape within the same cost
+    jk = [A("join.inner", 0, "JOIN"), A("join.left", 0, "LEFT JOIN"), A("join.right", 0, "RIGHT JOIN"), A("join.full", 0, "FULL JOIN")]
     order = [
         A("order.none", 0, ""), A("order.all", 1, " ORDER BY 1, 2"), A("order.desc", 1, " ORDER BY 1 DESC, 2"),
         A("order.nulls_first", 1, " ORDER BY 1 NULLS FIRST, 2 NULLS FIRST"), A("order.nulls_last", 1, " ORDER BY 1 NULLS LAST, 2 DESC NULLS LAST"),
